@@ -244,6 +244,7 @@ pub fn run(args: &Args) -> i32 {
     let nres = resolve_cases.load(Ordering::Relaxed);
     // the CLI clause: specifiers and sources[] of whole projects over output layouts
     let cli_layer = crate::e2e::c20_layer(&rep, args);
+    let loader_layer = loader_layer(&rep, args);
     let cov = json!({
         "states": npairs + nres + paths.len() as u64,
         "transitions": calls.load(Ordering::Relaxed),
@@ -256,6 +257,7 @@ pub fn run(args: &Args) -> i32 {
         "paths": paths.len(),
         "pairs": npairs,
         "cli_layer(specifier and sources[] of generated projects)": cli_layer,
+        "loader_layer(import chains across directories through the loader protocol)": loader_layer,
         "pairs_excluded_b_ancestor_of_a": skipped_prefix.load(Ordering::Relaxed),
         "resolve_cases": nres,
         "distinct_relative_paths_produced": distinct_rel.len(),
@@ -271,6 +273,88 @@ pub fn run(args: &Args) -> i32 {
             "Unix path syntax; no symlinks; names without separators".into(),
         ],
     )
+}
+
+/// The loader clause: an import chain root -> middle -> leaf with each file in one of four directories, the
+/// specifiers written in three styles, and a decoy of the leaf's base name wherever resolving the middle file's
+/// import against the ROOT file's directory would look. The loader must ask for exactly the files the statements
+/// name (the worker fails when it asks for a file the project does not have) and emit the real leaf.
+fn loader_layer(rep: &Reporter, args: &Args) -> serde_json::Value {
+    const DIRS: [&[&str]; 4] = [&["r"], &["r", "a"], &["r", "a", "b"], &["r", "c"]];
+    fn spec(from: &[&str], to: &[&str], name: &str, style: usize) -> String {
+        let common = from.iter().zip(to.iter()).take_while(|(a, b)| a == b).count();
+        let ups = from.len() - common;
+        let mut rest: Vec<String> = to[common..].iter().map(|s| s.to_string()).collect();
+        rest.push(name.to_string());
+        let rest = rest.join("/");
+        match (style, ups) {
+            (0, 0) => format!("./{rest}"),
+            (1, 0) => rest,
+            (2, 0) => format!("./zz/../{rest}"),
+            (2, _) => format!("{}./{rest}", "../".repeat(ups)),
+            _ => format!("{}{rest}", "../".repeat(ups)),
+        }
+    }
+    let path = |d: &[&str], name: &str| format!("/{}/{name}", d.join("/"));
+    let mut jobs = vec![];
+    for d0 in 0..4 {
+        for d1 in 0..4 {
+            for d2 in 0..4 {
+                for style in 0..3 {
+                    jobs.push((d0, d1, d2, style));
+                }
+            }
+        }
+    }
+    let pool = crate::worker::Pool::new("c12-loader", args.threads);
+    let emitted = AtomicU64::new(0);
+    let with_decoy = AtomicU64::new(0);
+    thread_local! { static SLOT: std::cell::Cell<usize> = const { std::cell::Cell::new(usize::MAX) }; }
+    let next = std::sync::atomic::AtomicUsize::new(0);
+    par_for(jobs.len(), args.threads, |i| {
+        let (d0, d1, d2, style) = jobs[i];
+        let my = SLOT.with(|x| {
+            if x.get() == usize::MAX {
+                x.set(next.fetch_add(1, Ordering::Relaxed) % args.threads.max(1));
+            }
+            x.get()
+        });
+        let s_mid = spec(DIRS[d0], DIRS[d1], "mid.graphql", style);
+        let s_leaf = spec(DIRS[d1], DIRS[d2], "leaf.graphql", style);
+        let mut files = vec![
+            (path(DIRS[d0], "root.graphql"), format!("#import Mid from \"{s_mid}\"\nquery ChainRoot {{ u {{ ...Mid }} }}\n")),
+            (path(DIRS[d1], "mid.graphql"), format!("#import Leaf from \"{s_leaf}\"\nfragment Mid on User {{ id ...Leaf }}\n")),
+            (path(DIRS[d2], "leaf.graphql"), "fragment Leaf on User { realLeaf }\n".to_string()),
+        ];
+        // where the leaf's specifier lands when it is (wrongly) read from the root file's directory
+        let mut comps: Vec<String> = DIRS[d0].iter().map(|s| s.to_string()).collect();
+        let mut above_root = false;
+        for c in s_leaf.split('/') {
+            match c {
+                "." | "" => {}
+                ".." => above_root |= comps.pop().is_none(),
+                x => comps.push(x.to_string()),
+            }
+        }
+        let decoy = format!("/{}", comps.join("/"));
+        if !above_root && files.iter().all(|f| f.0 != decoy) {
+            files.push((decoy, "fragment Leaf on User { decoyLeaf }\n".to_string()));
+            with_decoy.fetch_add(1, Ordering::Relaxed);
+        }
+        let case = || json!({"op": "loader-chain", "files": files, "style": style});
+        let pairs: Vec<serde_json::Value> = files.iter().map(|(p, t)| json!([p, t])).collect();
+        match pool.ask(my, &json!({"text": "", "files": pairs, "strategy": i % 3})) {
+            crate::worker::Answer::Done(v) => match v["js"].as_str() {
+                Some(js) if js.contains("realLeaf") && !js.contains("decoyLeaf") && js.contains("ChainRoot") => {
+                    emitted.fetch_add(1, Ordering::Relaxed);
+                }
+                Some(js) => rep.report(Violation { key: "loader.chain_resolves_to_another_file".into(), what: format!("the module of {} does not carry the leaf fragment its import chain names ({} -> {})", files[0].0, s_mid, s_leaf), case: json!({"case": case(), "js": js}) }),
+                None => rep.report(Violation { key: "loader.chain_fails".into(), what: format!("the loader fails on an import chain across directories ({s_mid} -> {s_leaf}): {}", v["error"]), case: case() }),
+            },
+            crate::worker::Answer::Died { panic, status } => rep.report(Violation { key: "loader.trap".into(), what: format!("loader died: {panic:?} {status}"), case: case() }),
+        }
+    });
+    json!({"chains": jobs.len(), "directories": DIRS.iter().map(|d| format!("/{}", d.join("/"))).collect::<Vec<_>>(), "specifier_styles": ["./x or ../x", "bare x or ../x", "with a redundant ./ or zz/../ segment"], "chains_with_a_decoy_file": with_decoy.load(Ordering::Relaxed), "modules_emitted_with_the_real_leaf": emitted.load(Ordering::Relaxed)})
 }
 
 pub fn replay(case: &serde_json::Value) -> i32 {
